@@ -613,7 +613,7 @@ def read_touchstone(text):
 # --------------------------------------------------------------------------------------------
 # generator of equivalent spellings (C08) -- the inverse of the format descriptions
 # --------------------------------------------------------------------------------------------
-UNITS = {"HZ": 1.0, "KHZ": 1e3, "MHZ": 1e6, "GHZ": 1e9}
+UNITS = {"HZ": 1.0, "KHZ": 1e3, "MHZ": 1e6, "GHZ": 1e9, "THZ": 1e12}     # THz: accepted by libvna beyond the format documents
 
 
 def num_text(x, rng, style=None):
@@ -702,7 +702,7 @@ def gen_touchstone(truth, sp, rng):
     if sp["version"] == 2:
         emit([rcase("[Version]", rng, case), "2.0"])
     # option line
-    fields = {"unit": [rcase({"HZ": "Hz", "KHZ": "kHz", "MHZ": "MHz", "GHZ": "GHz"}[sp["unit"]], rng, case)],
+    fields = {"unit": [rcase({"HZ": "Hz", "KHZ": "kHz", "MHZ": "MHz", "GHZ": "GHz", "THZ": "THz"}[sp["unit"]], rng, case)],
               "type": [rcase(typ, rng, case)], "fmt": [rcase(fmt, rng, case)],
               "R": [rcase("R", rng, case), num_text(R, rng, "repr")]}
     opt = ["#"]
